@@ -229,3 +229,6 @@ package validating
 //@ requires h != nil && h.Client != nil && oldObj != nil && newObj != nil && oldObj.Spec.Strategy.Canary != nil
 //@ ensures accepted_means_wellformed: len(result) == 0 ==> a1wfStrategy(newObj.Spec.Strategy) && newObj.Spec.ObjectRef.WorkloadRef != nil
 //@ ensures style_immutable_in_flight: len(result) == 0 && inFlight(a1latest().Status.Phase) ==> toLower(oldObj.Annotations["rollouts.kruise.io/rolling-style"]) == toLower(newObj.Annotations["rollouts.kruise.io/rolling-style"])
+// (F23) the v1alpha1 validator keeps the same promise as the v1beta1 one: the number of steps does not change while a
+// release is in flight (the release managers index the steps with the stored cursor)
+//@ ensures step_count_immutable_in_flight: len(result) == 0 && inFlight(a1latest().Status.Phase) ==> len(newObj.Spec.Strategy.Canary.Steps) == len(oldObj.Spec.Strategy.Canary.Steps)
